@@ -25,17 +25,34 @@
 (***************************************************************************)
 EXTENDS Naturals, FiniteSets, Sequences, TLC
 
-CONSTANTS Readers, Writers, Closer, MaxOps, None
+CONSTANTS
+  \* @type: Set(Str);
+  Readers,
+  \* @type: Set(Str);
+  Writers,
+  \* @type: Str;
+  Closer,
+  \* @type: Int;
+  MaxOps,
+  \* @type: Str;
+  None
 
 Procs == Readers \cup Writers \cup {Closer}
 
 VARIABLES
+  \* @type: Int;
   shared,     \* lock.sharedCount
+  \* @type: Bool;
   pending,    \* lock.pendingSet
+  \* @type: Str;
   reserved,   \* holder of lock.reserved (a process) or None
+  \* @type: Str -> Str;
   pc,         \* control state per process
+  \* @type: Str -> Int;
   ops,        \* number of transactions begun per process (bound)
+  \* @type: Bool;
   closed,     \* File.Close finished
+  \* @type: Str -> Bool;
   parked      \* process is asleep inside sync.Cond.Wait / the mutex wait queue
 
 vars == <<shared, pending, reserved, pc, ops, closed, parked>>
